@@ -25,19 +25,20 @@ func New[T comparable]() *Notifier[T] {
 	}
 }
 
-func (v *Notifier[T]) removeListener(value T) {
+func (v *Notifier[T]) removeListener(value T, valueListeners *listener) {
 	v.mutex.Lock()
 	defer v.mutex.Unlock()
 
-	valueListeners, exists := v.listeners.Get(value)
-	if !exists {
+	// the listeners of this value might have been notified already (and new ones might have been registered since):
+	// only touch the entry if it is still the one this listener belongs to
+	if currentListeners, exists := v.listeners.Get(value); !exists || currentListeners != valueListeners {
 		return
 	}
 	valueListeners.count--
 
 	if valueListeners.count == 0 {
-		// No one is listening anymore, so we can close the channel and clean up
-		close(valueListeners.channel)
+		// No one is listening anymore, so we can clean up (the channel is not closed, because closing it is the
+		// notification: a Wait racing with the de-registration would report success without Notify being called)
 		v.listeners.Delete(value)
 	}
 }
@@ -47,18 +48,16 @@ func (v *Notifier[T]) Listener(value T) *Listener {
 	v.mutex.Lock()
 	defer v.mutex.Unlock()
 
-	if valueListener, exists := v.listeners.Get(value); exists {
-		valueListener.count++
-		return newListener(valueListener.channel, func() {
-			v.removeListener(value)
-		})
+	valueListeners, exists := v.listeners.Get(value)
+	if exists {
+		valueListeners.count++
+	} else {
+		valueListeners = &listener{make(chan struct{}), 1}
+		v.listeners.Set(value, valueListeners)
 	}
 
-	msgProcessedChan := make(chan struct{})
-	v.listeners.Set(value, &listener{msgProcessedChan, 1})
-
-	return newListener(msgProcessedChan, func() {
-		v.removeListener(value)
+	return newListener(valueListeners.channel, func() {
+		v.removeListener(value, valueListeners)
 	})
 }
 
